@@ -250,6 +250,13 @@ func (t *Table) parseStartKey(schema keySchema, startkeyAttr map[string]*types.I
 	return startKey
 }
 
+// HasIndex reports whether the table has a secondary index with the given name
+func (t *Table) HasIndex(name string) bool {
+	_, ok := t.Indexes[name]
+
+	return ok
+}
+
 func getPrimaryKey(index *index, k string) (string, bool) {
 	pk, ok := k, true
 
